@@ -849,6 +849,7 @@ func (p *Parser) parsePoryswitchTextStatement() (string, string, error) {
 	strValue, ok := cases[switchValue]
 	if !ok {
 		strValue, ok = cases["_"]
+		strTypeValue = strTypeCases["_"]
 		if !ok && p.enableEnvironmentErrors {
 			return "", "", NewParseError(startToken, fmt.Sprintf("no poryswitch case found for '%s=%s', which was specified with the '-s' option", switchCase, switchValue))
 		}
